@@ -13,7 +13,7 @@ void cs_done(CO_CSDO *c, uint16_t i, uint8_t s, uint32_t code) { (void)c; if (g_
 void app_cb(void *p) { (void)p; }
 
 struct NodeX {
-  Ctx &c; Sim s; World w; std::vector<CO_HBCONS *> hc; uint8_t csbuf[64];
+  Ctx &c; Sim s; World w; std::vector<CO_HBCONS *> hc; uint8_t csbuf[64]; std::vector<std::string> extra;   // extra: results of API queries (mode with-queries)
   explicit NodeX(Ctx &cx) : c(cx), s(cx), w(s) {}
   void build(const Cfg &g) {
     s.nodeid = g.nodeid;
@@ -59,6 +59,12 @@ struct NodeX {
         break; }
       case 23: sdo(0x2B, (uint16_t)(0x1800 + o.b % 2), 5, (uint16_t[]){0, 5, 9}[o.a % 3]); break;
       case 24: sdo(0x23, (uint16_t)(0x1800 + o.b % 2), 1, (0x40000180u + 0x100u * (o.b % 2) + nid) | ((o.a % 2) ? 0x80000000u : 0)); break;
+      // mode with-queries: what the application learns through the query API is part of the node's observable behaviour
+      case 26: { uint8_t n = (uint8_t)(5 + o.a % 3); s.api_begin(); int16_t r = CONmtGetHbEvents(&s.node->Nmt, n); s.api_end("CONmtGetHbEvents"); char b[64]; snprintf(b, sizeof b, "query hb-events node %u -> %d", n, r); extra.push_back(b); break; }
+      case 27: { uint8_t n = (uint8_t)(5 + o.a % 3); s.api_begin(); int r = (int)CONmtLastHbState(&s.node->Nmt, n); s.api_end("CONmtLastHbState"); char b[64]; snprintf(b, sizeof b, "query hb-last-state node %u -> %d", n, r); extra.push_back(b); break; }
+      case 28: { s.api_begin(); int16_t cnt = COEmcyCnt(&s.node->Emcy); int16_t g0 = COEmcyGet(&s.node->Emcy, (uint8_t)(o.a % 3)); uint8_t reg = 0; CODictRdByte(&s.node->Dict, CO_DEV(0x1001, 0), &reg); s.api_end("COEmcyCnt");
+                 char b[96]; snprintf(b, sizeof b, "query emcy count %d, error %u active %d, 1001h %02X", cnt, o.a % 3, g0, reg); extra.push_back(b); break; }
+      case 29: { s.api_begin(); int m = (int)CONmtGetMode(&s.node->Nmt); uint8_t id = CONmtGetNodeId(&s.node->Nmt); s.api_end("CONmtGetMode"); char b[64]; snprintf(b, sizeof b, "query mode %d node-id %u", m, id); extra.push_back(b); break; }
       default: if (o.a % 3 == 2) sdo(0x2F, 0x1280, 3, 0x30u + o.b % 2);    // the SDO client's server node id (takes effect at the next reset / start)
                else s.rx(Frame::mk(0x123, 2, {1, 2}));
                break;
@@ -73,23 +79,25 @@ struct NodeX {
       if (!k) continue;
       snprintf(b, sizeof b, "@%ld cb %s %X %X%s%s", e.tick - base, k, e.a, e.b, (e.k == EV_CANRX || e.k == EV_PDOTX || e.k == EV_PDORX) ? " " : "", (e.k == EV_CANRX || e.k == EV_PDOTX || e.k == EV_PDORX) ? e.f.str().c_str() : ""); v.push_back(b);
     }
+    for (auto &x : extra) v.push_back(x); extra.clear();
     std::sort(v.begin(), v.end()); s.clear_tx(); s.clear_ev();
     return v;
   }
 };
 
-void case_impl(Ctx &c, bool from_callback) {
+void case_impl(Ctx &c, int variant) {   // 0 random, 1 reset-from-callback, 2 with-queries, 3 reset-before-start
+  const bool from_callback = variant == 1, prestart = variant == 3; const uint32_t nops = variant == 2 ? 30 : 26;
   Cfg g; g.nodeid = (uint8_t)(1 + c.t.below(40));
   g.hbt = (uint16_t[]){0, 5, 10}[c.t.below(3)]; g.syncid = 0x80 | (c.t.coin() ? 0x40000000u : 0); g.cyc = 1000u * (1 + c.t.below(5));
   for (int i = 0; i < 2; i++) { g.hc_on[i] = c.t.coin(); g.hc_time[i] = g.hc_on[i] ? (uint16_t)(4 + c.t.below(8)) : 0; }
   for (int p = 0; p < 2; p++) { g.ttype[p] = p == 0 ? 254 : (c.t.coin() ? (uint8_t)(1 + c.t.below(3)) : 255); g.tinh[p] = (g.ttype[p] >= 254 && c.t.coin()) ? (uint16_t)(10 * (1 + c.t.below(5))) : 0; g.tev[p] = c.t.coin() ? (uint16_t)(3 + c.t.below(10)) : 0; }
   g.rtype = c.t.coin() ? 254 : 1;
-  auto gen = [&](int maxn) { std::vector<OpRec> v; int n = (int)c.t.below(maxn + 1); for (int i = 0; i < n && !c.t.exhausted(); i++) v.push_back(OpRec{c.t.below(26), c.t.byte(), c.t.byte(), c.t.byte()}); return v; };
+  auto gen = [&](int maxn) { std::vector<OpRec> v; int n = (int)c.t.below(maxn + 1); for (int i = 0; i < n && !c.t.exhausted(); i++) v.push_back(OpRec{c.t.below(nops), c.t.byte(), c.t.byte(), c.t.byte()}); return v; };
   bool with_app_timer = c.t.coin(); bool reset_node = c.t.chance(70);
   std::vector<OpRec> H = gen(c.thorough ? 120 : 60), P = gen(c.thorough ? 90 : 60);
   if (P.size() < 8) for (int i = (int)P.size(); i < 8; i++) P.push_back(OpRec{(uint32_t)(i % 7), 1, 0, 0});
   // ---- node A
-  NodeX A(c); A.build(g); A.w.finish();
+  NodeX A(c); A.build(g); A.w.finish(!prestart);   // mode reset-before-start: the history happens between CONodeInit and CONodeStart, the application then resets through the API and starts the node
   int apptmr = -1; if (with_app_timer) { A.s.api_begin(); apptmr = COTmrCreate(&A.s.node->Tmr, 3, 7, app_cb, 0); A.s.api_end("COTmrCreate"); }
   VLOG(c, "node %u: history of %zu ops, reset %s, probe of %zu ops%s", g.nodeid, H.size(), reset_node ? "node" : "communication", P.size(), with_app_timer ? ", one cyclic application timer" : "");
   bool changed_param = false, nonidle = false;
@@ -107,8 +115,9 @@ void case_impl(Ctx &c, bool from_callback) {
   // in a third of the cases the tick interrupt has just run and the elapsed actions are not processed yet when the reset command is handled
   // (decided from the history length, no tape choice): the reset has to clear them like the pending ones
   if (!fired && H.size() % 3 == 1) { A.s.service(); c.cls("reset-with-elapsed-unprocessed-timer-actions"); }
-  if (!fired) A.s.rx(Frame::mk(0, 2, {(uint8_t)(reset_node ? 129 : 130), 0}));
-  c.cls(fired ? "reset-issued-from-the-heartbeat-event-callback" : "reset-by-nmt-command");
+  if (prestart) { A.s.api_begin(); CONmtReset(&A.s.node->Nmt, reset_node ? CO_RESET_NODE : CO_RESET_COM); A.s.api_end("CONmtReset"); A.s.clear_tx(); A.s.clear_ev(); A.s.start(); }
+  else if (!fired) A.s.rx(Frame::mk(0, 2, {(uint8_t)(reset_node ? 129 : 130), 0}));
+  c.cls(prestart ? "reset-through-the-api-before-the-node-was-started" : fired ? "reset-issued-from-the-heartbeat-event-callback" : "reset-by-nmt-command");
   long baseA = A.s.tick;
   std::vector<std::string> resetTrace = A.render(baseA);
   // the storage right after the reset is node B's initial storage
@@ -147,17 +156,21 @@ void case_impl(Ctx &c, bool from_callback) {
   if (changed_param) c.cls("history-changed-communication-parameters"); if (nonidle) c.cls("history-left-a-service-non-idle"); c.cls(reset_node ? "reset-node" : "reset-communication");
 }
 
-void one_case(Ctx &c) { case_impl(c, false); }
-void callback_case(Ctx &c) { case_impl(c, true); }
+void one_case(Ctx &c) { case_impl(c, 0); }
+void callback_case(Ctx &c) { case_impl(c, 1); }
+void query_case(Ctx &c) { case_impl(c, 2); }
+void prestart_case(Ctx &c) { case_impl(c, 3); }
 
 Registrar reg(Prop{
     "C20",
     "Cases: a node with heartbeat producer, SYNC consumer/producer, two heartbeat consumer entries, two TPDOs (event/inhibit/sync types), an RPDO, an SDO client, LSS and EMCY (generated configuration); a history H of 0..60 (120) ops from 26 kinds (ticks, heartbeat/SYNC/RPDO/LSS (switch, inquire, identify non-configured slave, configure node id 1..100 or 255, store)/foreign frames, SDO write to the SDO client's server node id 1280h:3, SDO writes to 1017h/1005h/1006h/1016h/18xxh:1/18xxh:5, NMT start/stop, triggers, object writes, EMCY set/clear, SDO transfers left open in three protocol states, client requests left busy, an optional cyclic application timer), "
-    "then NMT reset communication (or reset node; in mode reset-from-callback the application issues it with CONmtReset() from inside the heartbeat-consumer event callback when a monitored node falls silent), then a probe sequence P of 8..60 (90) ops of the same kinds (conforming traffic only). "
+    "then NMT reset communication (or reset node; in mode reset-from-callback the application issues it with CONmtReset() from inside the heartbeat-consumer event callback when a monitored node falls silent), then a probe sequence P of 8..60 (90) ops of the same kinds (conforming traffic only). Mode with-queries adds four kinds of API queries to H and P whose results are part of the trace (CONmtGetHbEvents, CONmtLastHbState, COEmcyCnt/COEmcyGet/1001h, CONmtGetMode/CONmtGetNodeId). Mode reset-before-start: H happens between CONodeInit and CONodeStart, the application then calls CONmtReset() and starts the node. "
     "Oracle (metamorphic): node B is a fresh node whose object storage equals A's storage right after the reset; after init+start it executes the same P; per probe step the sorted list of transmitted frames (with ticks relative to reset/start) and application callbacks (mode changes, heartbeat events/changes, frames handed to the application, client completions, PDO callbacks) must be identical; timer-pool occupancy of A equals B's plus live application timers right after the reset and after P. "
     "Non-trivial: H changed at least one communication parameter or NMT state, or left a service non-idle (open SDO transfer, busy client, active emergency). Distinct = distinct decoded choice sequence.",
     {Mode{"random", one_case, false, 750000, 9000000, 0, 0, 500, 900},
-     Mode{"reset-from-callback", callback_case, false, 250000, 3000000, 0, 0, 500, 900}},
+     Mode{"reset-from-callback", callback_case, false, 250000, 3000000, 0, 0, 500, 900},
+     Mode{"with-queries", query_case, false, 250000, 3000000, 0, 0, 500, 900},
+     Mode{"reset-before-start", prestart_case, false, 120000, 1500000, 0, 0, 500, 900}},
     {"dictionaries without parameter groups (their reload differs by design) and without 1003h (the history survives a reset but not a fresh initialisation, by design)", "the order of events inside one probe step is not compared (sorted lists)", "application timer callbacks are not part of the trace"}});
 
 }  // namespace
